@@ -102,22 +102,22 @@ class SchedWorker(wbase.Worker):
                     if time.monotonic() - t0 > self.settle_timeout:
                         self.settle_timeouts += 1
                         break
-                    await asyncio.sleep(0.001)
+                    await asyncio.sleep(0.002)
                 if not blocked:
-                    await asyncio.sleep(0.001)
+                    await asyncio.sleep(0.002)
                     continue
                 self.max_blocked = max(self.max_blocked, len(blocked))
                 c = self.choices.pop(0) if self.choices else 0
                 pick = blocked[c % len(blocked)]
                 self.releases.append((pick, len(blocked)))
+                # wait for that body to finish: one more future completes
+                n_done = sum(1 for f in self.outstanding.values() if f.done())
                 open(os.path.join(self.gate, "go", pick), "w").close()
-                # wait for that body to finish: its future completes (any one of the live ones)
                 t0 = time.monotonic()
-                n_live = len(live)
                 while time.monotonic() - t0 < self.settle_timeout:
-                    if len([f for f in self.outstanding.values() if not f.done()]) < n_live:
+                    if sum(1 for f in self.outstanding.values() if f.done()) > n_done:
                         break
-                    await asyncio.sleep(0.001)
+                    await asyncio.sleep(0.002)
         except asyncio.CancelledError:
             return
 
